@@ -256,6 +256,7 @@ func buildSidecarOutboundTCPFilterChainOpts(node *model.Proxy, push *model.PushC
 	// break as soon as we add one network filter with no destination addresses to match
 	// This is the terminating condition in the filter chain match list
 	defaultRouteAdded := false
+	subnetsHandled := sets.New[string]() // sets of destination subnets a filter chain has been generated for
 TcpLoop:
 	for _, cfg := range configs {
 		virtualService := cfg.Spec.(*v1alpha3.VirtualService)
@@ -303,6 +304,12 @@ TcpLoop:
 			}
 
 			if len(virtualServiceDestinationSubnets) > 0 {
+				// A route whose destination subnets are those of an earlier route can never be reached, and a
+				// second filter chain with the same CIDR match makes Envoy reject the whole listener.
+				sort.Strings(virtualServiceDestinationSubnets)
+				if subnetsHandled.InsertContains(strings.Join(virtualServiceDestinationSubnets, ",")) {
+					continue
+				}
 				out = append(out, &filterChainOpts{
 					destinationCIDRs: virtualServiceDestinationSubnets,
 					networkFilters:   lb.buildOutboundNetworkFilters(tcp.Route, listenPort, cfg.Meta, false),
